@@ -13,6 +13,32 @@ TP_CASES = [
 ]
 
 
+def be8(u):
+    return list(u.to_bytes(8, "big"))
+
+
+def tp_inputs(ctx):
+    """Inputs (not expectations) for IsGREASEID and IdOverride: dense small range, the progression 31*N+27 and its
+    neighbours, the 2^62 / 2^64 boundary regions."""
+    top = 1000 if ctx.quick else 20000
+    pred = set(range(0, top + 1))
+    for n in range(0, 120 if ctx.quick else 2000):
+        pred.update((31 * n + 26, 31 * n + 27, 31 * n + 28))
+    m62 = (1 << 62) - 1
+    gmax = 27 + ((m62 - 27) // 31) * 31                    # largest 31*N+27 below 2^62
+    for c in (m62, 1 << 62, (1 << 63) - 1, 1 << 63, (1 << 64) - 1, gmax, 1 << 32, (1 << 32) + 27, 1 << 53):
+        for d in range(-35, 36):
+            if 0 <= c + d < (1 << 64):
+                pred.add(c + d)
+    pred = sorted(pred)
+    # overrides must be encodable (< 2^62): a valid GREASE id above that is returned as it is and cannot be marshaled
+    over = set(range(0, 65)) | {31 * n + 27 for n in range(0, 70)} | {31 * n + 27 + d for n in (1, 2, 50, 1000) for d in (-1, 1)}
+    over |= {gmax, gmax - 1, gmax - 31, m62, m62 - 1, 1 << 32, (1 << 61) + 5, 0x2ab2, 0xff73db}
+    over |= {(1 << 64) - k for k in range(1, 40)} | {(1 << 63) + 11, 1 << 62}
+    over = sorted(i for i in over if not (i > m62 and i >= 27 and (i - 27) % 31 == 0))
+    return [be8(i) for i in pred], [be8(i) for i in over]
+
+
 def has_grease(sp):
     def g(v):
         return (v >> 8) == (v & 0xff) and (v & 0xf) == 0xa
@@ -43,6 +69,9 @@ def sig_of(why):
         return "not-fresh:%s" % why[1]
     if why[0] == "boring-not-grease":
         return "boring-not-grease:%s" % why[1]
+    if why[0] in ("tp-isgreaseid-disagrees", "tp-override-id-not-grease"):
+        ids = sorted(int.from_bytes(bytes(b), "big") for b in why[1])
+        return "%s:%s" % (why[0], ",".join(str(i) for i in ids[:8]) + ("..." if len(ids) > 8 else ""))
     if why[0] in ("tp-body", "fingerprint-failed"):
         return "%s:%s" % (why[0], why[1] if isinstance(why[1], str) else ",".join(why[1]))
     return why[0]
@@ -100,7 +129,11 @@ def canary(ctx, boring, ghello_rows):
             {"ev": "TPIds", "ids": [[0, 0, 0, 0, 0, 0, 0, 28]]},
             {"ev": "TPIds", "ids": [[0, 0, 0, 0, 0, 0, 0, 26]]},
             {"ev": "QVers", "vs": [[0x1a, 0x2a, 0x3a, 0x4a]]},
-            {"ev": "QVers", "vs": [[0x1a, 0x2a, 0x3a, 0x4b]]}]
+            {"ev": "QVers", "vs": [[0x1a, 0x2a, 0x3a, 0x4b]]},
+            {"ev": "TPIsGrease", "ids": [be8(27), be8(11), be8(58)], "res": [True, False, True]},
+            {"ev": "TPIsGrease", "ids": [be8(27), be8(11)], "res": [True, True]},
+            {"ev": "TPOverride", "ins": [be8(58), be8(5)], "ids": [be8(58), be8(89)], "bodies": [[58, 1, 0], [64, 89, 1, 0]]},
+            {"ev": "TPOverride", "ins": [be8(11)], "ids": [be8(11)], "bodies": [[11, 1, 0]]}]
     base = len(rows)
     rows += regroup(grp, len(rows))
     i_spoiled = len(rows) + 2
@@ -109,7 +142,7 @@ def canary(ctx, boring, ghello_rows):
     rows += regroup(stale, len(rows))
     rej, _ = validate(ctx, rows, "c04_canary")
     got = sorted(i for i, _ in rej)
-    want = sorted([2, 4, 5, 7, i_spoiled, i_stale_end])
+    want = sorted([2, 4, 5, 7, 9, 11, i_spoiled, i_stale_end])
     if got != want:
         raise vlib.Machinery("C04 binding canary: TLC rejected events %r, expected exactly %r (%r)" % (got, want, rej))
     return len(want)
@@ -125,6 +158,13 @@ def run(ctx):
     boring = ctx.drv("boring", {}, prog="gen")
     nidx = boring[0]["nidx"]
     quic = ctx.drv("quicgrease", {"n": ndraw, "cases": TP_CASES, "per": 50 if ctx.quick else 500}, prog="gen")
+    tp_pred, tp_over = tp_inputs(ctx)
+    tpev = ctx.drv("tpids", {"pred": tp_pred, "override": tp_over}, prog="gen")
+    if len(tpev) != 2 or len(tpev[0]["res"]) != len(tp_pred) or len(tpev[1]["ids"]) != len(tp_over):
+        raise vlib.Machinery("C04: tpids returned an incomplete answer")
+    if not any(tpev[0]["res"]) or all(tpev[0]["res"]) or not any(a == b for a, b in zip(tpev[1]["ins"], tpev[1]["ids"])) \
+            or all(a == b for a, b in zip(tpev[1]["ins"], tpev[1]["ids"])):
+        raise vlib.Machinery("C04 vacuity: IsGREASEID / IdOverride inputs do not exercise both outcomes")
     fp_ids = gids[:: max(1, len(gids) // (4 if ctx.quick else 12))]
     cases = [{"id": i, "mode": "parrot", "n": nconn} for i in gids]
     cases += [{"id": i, "mode": "fingerprint", "n": nconn} for i in fp_ids]
@@ -167,7 +207,7 @@ def run(ctx):
             groups.append(cur); cur = []
     nsh = 4 if ctx.quick else 12
     shards = [[] for _ in range(nsh)]
-    shards[0] = list(boring) + list(quic)
+    shards[0] = list(boring) + list(quic) + list(tpev)
     for k, g in enumerate(groups):
         s = shards[1 + k % (nsh - 1)]
         s.extend(regroup(g, len(s)))
@@ -206,6 +246,8 @@ def run(ctx):
         if ev["ev"] in ("TPIds", "QVers", "TPBody"):
             again = ctx.drv("quicgrease", {"n": 2000, "cases": TP_CASES, "per": 20}, prog="gen", name="quic_again")
             rows = [e for e in again if e["ev"] == ev["ev"] and (ev["ev"] != "TPBody" or e["kinds"] == ev["kinds"])]
+        elif ev["ev"] in ("TPIsGrease", "TPOverride"):
+            rows = [e for e in ctx.drv("tpids", {"pred": tp_pred, "override": tp_over}, prog="gen", name="tpids_again") if e["ev"] == ev["ev"]]
         elif ev["ev"] == "Boring":
             rows = [e for e in ctx.drv("boring", {}, prog="gen", name="boring_again") if e["idx"] == ev["idx"]]
         else:
@@ -221,6 +263,10 @@ def run(ctx):
             bad = [bytes(v).hex() for v in ev["vs"] if any((b & 0xf) != 0xa for b in v)][:8]
             replay["examples_hex"] = bad
             replay["call"] = "(&tls.VersionInformation{}).GetGREASEVersion()"
+        elif ev["ev"] in ("TPIsGrease", "TPOverride"):
+            replay["ids"] = sorted(int.from_bytes(bytes(b), "big") for b in why[1])[:50]
+            replay["call"] = ("tls.GREASETransportParameter{}.IsGREASEID(id)" if ev["ev"] == "TPIsGrease"
+                              else "tls.TransportParameters{&tls.GREASETransportParameter{IdOverride: id, Length: 2}}.Marshal()")
         elif ev["ev"] == "TPIds":
             replay["call"] = "tls.GREASETransportParameter{}.GetGREASEID()"
         elif ev["ev"] == "Hello":
@@ -230,14 +276,14 @@ def run(ctx):
         ctx.finding(sig, "GREASE rule rejected by spec/Grease.tla: %s" % json.dumps(why), replay)
 
     nh = sum(1 for r in gh if r["ev"] == "Hello")
-    evals = len(boring) * 65536 + 3 * ndraw + sum(1 for e in quic if e["ev"] == "TPBody") + nh
+    evals = len(tp_pred) + len(tp_over) + len(boring) * 65536 + 3 * ndraw + sum(1 for e in quic if e["ev"] == "TPBody") + nh
     samples = [{"boring_idx0_first8": boring[0]["vals"][:8]},
                {"tp_id_be8": quic[0]["ids"][0], "quic_version_be4": quic[1]["vs"][0]},
                {"group": groups[0][0]["grp"], "seed": groups[0][1]["seed"], "hello_len": len(groups[0][1]["raw"])}]
     cov = {"evaluations": evals, "distinct_nontrivial": len(boring) * 65536 + len(groups),
            "rule": "evaluations = 65536 seed values x %d indices of GetBoringGREASEValue (exhaustive) + %d draws each of GetGREASEID, GREASETransportParameter.ID, GetGREASEVersion + marshaled transport-parameter lists + wire hellos; distinct = (seed value, index) pairs + connection groups (spec x mode) whose freshness was judged" % (nidx, ndraw),
            "samples": samples, "grease_parrots": len(gids), "connection_groups": len(groups), "connections_per_group": nconn,
-           "config_rand_groups": {rv: sum(1 for c in rand_cases if c["rand"] == rv) for rv in rand_variants}, "fingerprinted_groups": len(fp_ids), "spec_reuse_groups": {m: sum(1 for c in reuse_cases if c["mode"] == m) for m in reuse_modes}, "forced_collision_connections": 256 * len(cr_ids), "collision_branch_seen": collided,
+           "config_rand_groups": {rv: sum(1 for c in rand_cases if c["rand"] == rv) for rv in rand_variants}, "isgreaseid_inputs": len(tp_pred), "idoverride_inputs": len(tp_over), "fingerprinted_groups": len(fp_ids), "spec_reuse_groups": {m: sum(1 for c in reuse_cases if c["mode"] == m) for m in reuse_modes}, "forced_collision_connections": 256 * len(cr_ids), "collision_branch_seen": collided,
            "canary_events_rejected": ncan, "exhaustive": False,
            "exhaustive_part": "GetBoringGREASEValue over all 65536 seed values for each index"}
     return "model_checking", cov, [
